@@ -706,8 +706,8 @@ def check_template(acc, text, frags, fmts, datasets, verbose=False):
             if HANG_CLASS_LIVE and self_referential(text, fmt, a, b):
                 acc.add('skipped_self_referential_cmake_value')
                 continue
-            if acc.hangs >= 2 or HSTATS['hangs'] >= 4:
-                # (a real non-termination costs HANG_CPU_S + HANG_CONFIRM_CPU_S of CPU time per case: two witnesses per shard, four per process)
+            if acc.hangs >= 2 or HSTATS['hangs'] >= 2:
+                # (a real non-termination costs HANG_CPU_S + HANG_CONFIRM_CPU_S of CPU time per case: at most two witnesses per worker process)
                 acc.add('not_run_after_hangs')
                 continue
             r = run_real(lines, cd, fmt)
